@@ -953,4 +953,11 @@ val tcp_event : bytes -> conn_event
 
 val run_t : opts -> bytes -> bytes * bytes
 
+val dump_disp : opts -> z -> table -> bytes
+
+val run_segs_d :
+  opts -> table -> bytes list -> bytes list -> bool * bytes list
+
+val run_d : opts -> bytes -> bytes * bytes
+
 val run_case2 : bytes -> bytes
